@@ -6,6 +6,7 @@ import (
 	"strings"
 
 	"github.com/z7zmey/php-parser/pkg/ast"
+	"github.com/z7zmey/php-parser/pkg/version"
 	"github.com/z7zmey/php-parser/pkg/visitor/formatter"
 	"github.com/z7zmey/php-parser/pkg/visitor/printer"
 	"github.com/z7zmey/php-parser/verifmc/astx"
@@ -243,6 +244,13 @@ func c17Run(c *core.Ctx) {
 				c17One(c, mkCase(src, f.V, why))
 			}
 		})
+	}
+	for _, src := range corpus.ChainPrograms(3) {
+		for _, v := range []*version.Version{drive.V74, drive.V56} {
+			if c.Next() {
+				c17One(c, mkCase(src, v, "postfix chain"))
+			}
+		}
 	}
 	for _, src := range corpus.Specials() {
 		if !c.Next() {
